@@ -116,9 +116,11 @@ impl<'a> DeferredWriter<'a> {
     #[inline]
     pub fn buf_write_ptr(&mut self, len: usize) -> *mut u8 {
         let old_len = self.buf.len();
-        // SAFETY add cannot overflow as both are at most `isize::MAX`.
-        let new_len = old_len + len;
-        if new_len <= self.buf.capacity() {
+        // `len` is caller provided and can be arbitrarily large, so this add can overflow.
+        if old_len
+            .checked_add(len)
+            .map_or(false, |new_len| new_len <= self.buf.capacity())
+        {
             // SAFETY this returns the offset to `old_len` which is always in range
             unsafe { self.buf.as_mut_ptr().add(old_len) }
         } else {
